@@ -42,6 +42,7 @@ def cfg_of(params):
         "auto_index": params.get("ai", True),
         "csv_times": params.get("csv_times", 3),
         "floats": params.get("floats", False),
+        "meas_alpha": params.get("meas_alpha"),
     }
 
 
@@ -70,6 +71,8 @@ def h_remove(params):
 
     def body(h):
         prefix(h, params, used)
+        if params.get("reindex_pre"):  # the removal runs on a manually built, valid index
+            apply_op(h, ("reindex",))
         if params.get("pre_read"):
             h.check_reads(h.q(("time", "<", SYM)), None, what="read before removal")
         if params.get("pre_remove"):  # an earlier rewrite of the file (handle reopened)
@@ -105,6 +108,8 @@ def h_update(params):
 
     def body(h):
         prefix(h, params, used)
+        if params.get("reindex_pre"):
+            apply_op(h, ("reindex",))
         if params.get("all"):
             apply_op(h, ("updall", us, params.get("via")))
         else:
@@ -170,6 +175,18 @@ def h_inv(params):
                     in_order = True if latest is None else (mp.t >= _us(latest))
                     if bool(in_order):
                         require(db.index.valid, lambda: f"step {step}: non-decreasing insert invalidated the index")
+            elif k == "ins_notime":
+                # a point without a time: stamped with the insertion time (symbolic clock, unrelated to the
+                # stored times, so it may lie before the latest indexed time)
+                if ai and was_valid and not db.index.empty:
+                    latest = db.index.latest_time
+                s = P()
+                s["time"] = None
+                mp = apply_op(h, ("ins", s))
+                if ai and was_valid:
+                    in_order = True if latest is None else (mp.t >= _us(latest))
+                    if bool(in_order):
+                        require(db.index.valid, lambda: f"step {step}: non-decreasing insert (stamped point) invalidated the index")
             elif k == "insm":
                 apply_op(h, ("insm", [P() for _ in range(op[1])]))
             elif k == "insm_fail":
